@@ -219,6 +219,26 @@ def mut_flag_and(src):
     return replace_once(s, FWD_STORE, "                global_reachout[key][block] = new_reachout\n            else:\n                updated = False\n")
 
 
+# ---- twin audit (same-typed names written for each other, swapped argument order)
+RUN_FWD_CALL = "        self.forward_analyis(analysis_keys, worklist)\n"
+RUN_BWD_CALL = "        self.backward_analysis(analysis_keys, worklist)\n"
+
+
+def mut_calls_exchanged(src):
+    """(t1) run_analysis: forward_analyis and backward_analysis exchanged in BOTH passes (twin methods of the same signature;
+    the two passes keep the same text)"""
+    if src.count(RUN_FWD_CALL) != 2 or src.count(RUN_BWD_CALL) != 2:
+        raise RuntimeError("mutation anchor not found: the two calls of forward_analyis / backward_analysis")
+    return src.replace(RUN_FWD_CALL, "\0").replace(RUN_BWD_CALL, RUN_FWD_CALL).replace("\0", RUN_BWD_CALL)
+
+
+def mut_call_args_swapped(src):
+    """(a1) run_analysis: self.forward_analyis(worklist, analysis_keys) in both passes"""
+    if src.count(RUN_FWD_CALL) != 2:
+        raise RuntimeError("mutation anchor not found: the two calls of forward_analyis")
+    return src.replace(RUN_FWD_CALL, "        self.forward_analyis(worklist, analysis_keys)\n")
+
+
 MUTATIONS = [
     ("(j1) `updated = False` inside the key loop", mut_flag_in_loop),
     ("(j2) re-queue only when the LAST key changed", mut_flag_last_key),
@@ -240,6 +260,8 @@ MUTATIONS = [
     ("(j18) forward re-queues the predecessors", mut_requeue_predecessors),
     ("(j19) backward: keys recomputed in reverse order", mut_keys_reversed),
     ("(j20) re-queue only when ALL keys changed", mut_flag_and),
+    ("(t1) TWIN both passes: forward / backward calls exchanged", mut_calls_exchanged),
+    ("(a1) ARGS both passes: forward_analyis(worklist, analysis_keys)", mut_call_args_swapped),
 ]
 REQUIRED = 4  # (j1), (j2), (j4) are the mutations named by the task; (j3) their backward twin
 
